@@ -48,6 +48,24 @@ CHECKS = {
  "C15": ("other", "B", "typed dataflow IR with a Lean soundness theorem (well-typed programs are equivariant / translation invariant / permutation equivariant / batch separable given equivariant primitives) + recorded dataflow of real forward passes + direct oracles",
          "Soundness of the typing discipline proved in Lean; each network's recorded module-call dataflow is type-checked; equivariance, translation, relabelling, batch separation and cutoff oracles run on the real models with shims for torch_scatter/torch_cluster.",
          "The trace covers executed paths only and the translation of glue ops is trusted: level `other`.", "6 C15"),
+ "C01": ("proof", "A", "per-program kernel certificate of the so(3)-generator identity + parity rule on the coefficient polynomials of the regenerated FX program, lifted by Lean theorems (soundness of formal derivatives, one-parameter groups, Euler composition) to all rotations and the inversion",
+         "For every program of the family (all 8 connection modes × weighted/unweighted × every specialisation branch × option settings, multi-path, seeded random) equivariance holds for ALL inputs, ALL weights and EVERY element of O(3) given by Euler angles / inversion; derived and experimental classes and `right` by equivariance oracles.",
+         "Per-program, family finite (degrees <= 3). Trusted: translator T1, Lean kernel, Mathlib; D(g) of a layout = eulerD of block generators (direct sum of Wigner D: property C03).", "6 C01"),
+ "C02": ("proof", "A", "translator T1 (FX graph -> tensor IR, regenerated every run) + symbolic execution in the Lean kernel + naturality theorem: equal coefficient polynomials => program = specification for all real inputs",
+         "Each generated FX program (after opt_einsum_fx) is certified equal to an independently written specification program (exact Clebsch-Gordan model, documented normalisation, instruction-order weights) as polynomials, hence on every input and weight; option invariance, batch broadcasting, list weights and right() differentially.",
+         "Per-program at batch 2; other batch shapes differentially. Trusted: translator T1 (validated by exact evaluation vs the module each run), constant lifting to q*sqrt(d), Lean kernel, Mathlib. TorchScript: differential only.", "6 C02"),
+ "C07": ("proof", "A", "exact second moments computed in the Lean kernel from the coefficient polynomials of the regenerated programs (Gaussian moment functional), with a Lean soundness theorem for the moment computation",
+         "For every program with unit path weights the exact E[out_k^2] equals the declared output variance (component/norm × element/path, in/out variance vectors, multi-path); Linear and TensorSquare by exact Wick formulas on autograd-extracted coefficients; normalize2mom by quadrature.",
+         "Expectation enters as a linear functional with Gaussian moment factorisation (hypotheses of Props/C07). normalize2mom constant and FullyConnectedNet post-activation moments are not theorems.", "6 C07"),
+ "C19": ("proof", "A+B", "per-program kernel certificate relating the module's reported mask / weight count / weight views / sizes to the coefficient polynomials + Lean theorems (slices partition the weights for all instruction lists; mask soundness)",
+         "mask[k]=0 <=> zero polynomial (identically zero for all inputs and weights), mask[k]=1 => provably non-zero; weights of slice k occur only in path k's monomials; views = model slices; view-aliasing histories on the real module.",
+         "Per-program for TensorProduct (Linear through the C08 machinery). Trusted: translator T1, Lean kernel, Mathlib.", "6 C19"),
+ "C08": ("proof", "A", "translator T1 on Linear's generated FX program + LinearSpec certificates (equal coefficient polynomials) + Lean theorem that the block specification commutes with every per-irrep action",
+         "Per-program equality with the block-structured specification for all inputs and weights; equivariance of the specification for all layouts; bias only on 0e; internal/external/per-sample weights and batch/channels dims differentially.",
+         "Per-program, family finite. Trusted: translator T1, Lean kernel, Mathlib.", "6 C08"),
+ "C10": ("proof", "A", "exact lifting of change_of_basis to Q(sqrt n) + kernel certificates (orthonormality, symmetries, completeness, generator intertwining) + Lean lifting to all rotations; FX `main` certified against the contraction spec",
+         "Per configuration: orthonormal rows, every stated (anti)symmetry, completeness against the exact symmetric projector, intertwining for all rotations; CartesianTensor round trips as linear-algebra theorems.",
+         "Configurations whose entries are nested radicals are numeric-only. Trusted: constant recognition (1e-14), Lean kernel, Mathlib.", "6 C10"),
 }
 
 NOT_YET = {
@@ -77,7 +95,7 @@ def main(claimed):
         })
     na = [{"property_id": p, "reason": r} for p, r in sorted(NOT_YET.items()) if p not in claimed]
     na += [{"property_id": p, "reason": "check under construction in this round; not claimed until it passes on the unchanged tree"}
-           for p in sorted(CHECKS) if p not in claimed]
+           for p in sorted(CHECKS) if p not in claimed and p not in NOT_YET]
     man = {
         "version": 1,
         "setup_cmd": "cd lean && lake build",
